@@ -9,77 +9,6 @@ some `r' ≥ r`, and `r' > r` if the chunk was the one following the cumulative 
 namespace Aiortc.Sctp
 open Aiortc.Gen
 
-/-- the chunk after the cumulative TSN moves the cumulative TSN to itself or to a TSN that was misordered -/
-theorem markReceived_next_mem (rx : Rx) (h : RxOk rx) :
-    (markReceived rx (tsn_plus_one rx.last)).2.last ∈ tsn_plus_one rx.last :: rx.mis := by
-  have hl := h.last
-  have hgte : uint32_gte rx.last (tsn_plus_one rx.last) = false := by
-    unfold uint32_gte uint32_gt tsn_plus_one; unfold R32 at hl
-    rw [Bool.eq_false_iff]; simp only [ne_eq, Bool.or_eq_true, Bool.and_eq_true, decide_eq_true_eq]; omega
-  unfold markReceived
-  simp only [hgte, h.next, Bool.or_self, Bool.false_eq_true, if_false]
-  -- the sorted list starts with the new TSN
-  have hn32 : R32 (tsn_plus_one rx.last) := by unfold tsn_plus_one R32; omega
-  have hnotin : tsn_plus_one rx.last ∉ rx.mis := by
-    have := h.next; simpa using this
-  have hdist : (rx.mis ++ [tsn_plus_one rx.last]).Pairwise (fun x y => serialKey rx.last x ≠ serialKey rx.last y) := by
-    have hnd : (rx.mis ++ [tsn_plus_one rx.last]).Nodup := by
-      rw [List.nodup_append]
-      refine ⟨h.nodup, by simp, ?_⟩
-      intro a ha b hb
-      simp only [List.mem_singleton] at hb
-      subst hb
-      intro hab; subst hab; exact hnotin ha
-    refine List.Pairwise.imp_of_mem ?_ hnd
-    intro x y hx hy hne hk
-    apply hne
-    have hx32 : R32 x := by
-      simp only [List.mem_append, List.mem_singleton] at hx
-      rcases hx with hx | rfl
-      · exact (h.mis x hx).1
-      · exact hn32
-    have hy32 : R32 y := by
-      simp only [List.mem_append, List.mem_singleton] at hy
-      rcases hy with hy | rfl
-      · exact (h.mis y hy).1
-      · exact hn32
-    unfold serialKey at hk; unfold R32 at hx32 hy32; omega
-  have hsorted := sortByKey_sorted rx.last _ hdist
-  have hmem : ∀ x, x ∈ sortByKey rx.last (rx.mis ++ [tsn_plus_one rx.last]) ↔ x ∈ rx.mis ++ [tsn_plus_one rx.last] :=
-    fun x => mem_sortByKey rx.last x _
-  generalize hS : sortByKey rx.last (rx.mis ++ [tsn_plus_one rx.last]) = S at hsorted hmem
-  cases S with
-  | nil =>
-    have := (hmem (tsn_plus_one rx.last)).mpr (by simp)
-    cases this
-  | cons hd rest =>
-    have hhd : hd = tsn_plus_one rx.last := by
-      have hin : tsn_plus_one rx.last ∈ hd :: rest := (hmem _).mpr (by simp)
-      simp only [List.mem_cons] at hin
-      rcases hin with hin | hin
-      · exact hin.symm
-      · exfalso
-        have hlt := (List.pairwise_cons.mp hsorted).1 _ hin
-        have hhdm : hd ∈ rx.mis ++ [tsn_plus_one rx.last] := (hmem hd).mp (by simp)
-        simp only [List.mem_append, List.mem_singleton] at hhdm
-        rcases hhdm with hm | hm
-        · have := h.mis hd hm
-          unfold serialKey tsn_plus_one at hlt; unfold R32 at this hl
-          omega
-        · rw [hm] at hlt; omega
-    subst hhd
-    have : consolidate rx.last (tsn_plus_one rx.last :: rest) = consolidate (tsn_plus_one rx.last) rest := by
-      simp [consolidate]
-    simp only [this]
-    rcases consolidate_mem rest (tsn_plus_one rx.last) with e | e
-    · rw [e]; simp
-    · have := (hmem _).mp (List.mem_cons_of_mem _ e)
-      simp only [List.mem_append, List.mem_singleton] at this
-      simp only [List.mem_cons]
-      rcases this with h' | h'
-      · exact Or.inr h'
-      · exact Or.inl h'
-
 theorem markReceived_old (rx : Rx) (t : Int) (h : (uint32_gte rx.last t || rx.mis.contains t) = true) :
     (markReceived rx t).2.last = rx.last ∧ (markReceived rx t).2.mis = rx.mis := by
   unfold markReceived; simp only [h, if_true, and_self]
